@@ -106,6 +106,113 @@ _cu.run_conversion_loop = _reaping_run_conversion_loop
 if getattr(_conv, 'run_conversion_loop', None) is _orig_rcl:
     _conv.run_conversion_loop = _reaping_run_conversion_loop
 
+# ------------------------------------------------------------------ decoy history of every written path
+# A result must depend on the file and the arguments only.  A memo that outlives the file it was filled from (keyed by
+# path, by path + size, by path + offsets + trace count, by path + mtime ...) is invisible to a harness that writes every
+# file under a fresh name and reads it once.  Therefore every SGZ file a harness has the library write gets, right after
+# the writer returned, this history at no cost to the harness: the file is set aside, a DECOY of exactly the same length,
+# layout, counts and mtime (other line numbers, other hash, data blocks in reverse order, every stored header array
+# reversed and shifted) is put under its name and read through the usual entry points, then the real file is put back.
+# On a correct library nothing of this can be observed.  SZV_NO_DECOY=1 or hz.DECOY[0] = False switches it off.
+DECOY = [os.environ.get('SZV_NO_DECOY') is None]
+DECOY_COUNT = [0]
+
+
+def _exercise_decoy(path):
+    import seismic_zfp as _sz
+    try:
+        with SgzReader(path) as r:
+            n = r.tracecount
+            for f in (lambda: r.gen_trace_header(0), lambda: r.gen_trace_header(max(0, n - 1)), lambda: r.read_variant_headers(),
+                      lambda: r.get_tracefield_values(189), lambda: r.get_tracefield_values(193), lambda: r.get_tracefield_values(115),
+                      lambda: r.get_trace(0), lambda: r.get_trace(max(0, n - 1)), lambda: r.read_inline(0), lambda: r.read_crossline(0),
+                      lambda: r.read_zslice(0), lambda: r.read_subplane(0, 1, 0, 1), lambda: r.get_source_data_hash(),
+                      lambda: r.get_inline_index(int(r.ilines[0])), lambda: r.get_crossline_index(int(r.xlines[0])),
+                      lambda: r.get_file_binary_header(), lambda: r.get_unstructured_mask()):
+                try:
+                    f()
+                except Exception:
+                    pass
+    except Exception:
+        pass
+    try:
+        with _sz.open(path) as f:
+            for g in (lambda: f.header[0], lambda: f.trace[0], lambda: f.iline[int(f.ilines[0])], lambda: f.attributes(189)[:], lambda: f.text[0]):
+                try:
+                    g()
+                except Exception:
+                    pass
+    except Exception:
+        pass
+
+
+def _decoy_history(path):
+    if not DECOY[0] or not isinstance(path, str) or not os.path.isfile(path):
+        return
+    try:
+        st = os.stat(path)
+        if st.st_size < 8192 or st.st_size > (1 << 23):
+            return
+        raw = open(path, 'rb').read()
+        nhb, ndb = int.from_bytes(raw[0:4], 'little'), int.from_bytes(raw[56:60], 'little')
+        hel, nha = int.from_bytes(raw[60:64], 'little'), int.from_bytes(raw[64:68], 'little')
+        data0 = 4096 * nhb
+        foot0 = data0 + 4096 * ndb
+        if nhb < 1 or foot0 > len(raw):
+            return
+        dec = bytearray(raw)
+        for off in (20, 24):
+            dec[off:off + 4] = ((int.from_bytes(raw[off:off + 4], 'little') + 7) & 0xffffffff).to_bytes(4, 'little')
+        dec[960:980] = bytes(b ^ 0x5a for b in raw[960:980])
+        dec[data0:foot0] = b''.join(raw[foot0 - 4096 * (k + 1):foot0 - 4096 * k] for k in range(ndb))
+        if nha and hel and (len(raw) - foot0) % nha == 0:
+            stride = (len(raw) - foot0) // nha
+            for k in range(nha):
+                a0 = foot0 + k * stride
+                arr = np.frombuffer(raw[a0:a0 + hel], dtype='<i4')[::-1].copy()
+                arr[arr != 0] += 1000
+                dec[a0:a0 + hel] = arr.tobytes()
+        aside = path + '.real~'
+        os.replace(path, aside)
+        try:
+            with open(path, 'wb') as f:
+                f.write(bytes(dec))
+            os.utime(path, ns=(st.st_atime_ns, st.st_mtime_ns))
+            _exercise_decoy(path)
+        finally:
+            os.replace(aside, path)
+        DECOY_COUNT[0] += 1
+    except Exception:
+        if os.path.exists(path + '.real~'):
+            os.replace(path + '.real~', path)
+
+
+def _with_decoy(cls, name, path_of):
+    orig = getattr(cls, name)
+    if getattr(orig, '_szv_decoy', False):
+        return
+
+    def wrapped(self, *a, **k):
+        res = orig(self, *a, **k)
+        try:
+            out = path_of(a, k)
+        except Exception:
+            out = None
+        _decoy_history(out)
+        return res
+    wrapped._szv_decoy = True
+    wrapped.__name__ = getattr(orig, '__name__', name)
+    wrapped.__doc__ = getattr(orig, '__doc__', None)
+    wrapped.__wrapped__ = orig
+    setattr(cls, name, wrapped)
+
+
+_first_or = lambda key: (lambda a, k: a[0] if a else k.get(key))
+_with_decoy(_conv.SeismicFileConverter, 'run', _first_or('out_filename'))
+_with_decoy(_conv.NumpyConverter, 'run', _first_or('out_filename'))
+_with_decoy(_conv.SgzConverter, 'convert_to_adv_sgz', _first_or('out_file'))
+_with_decoy(SgzCropper, 'write_cropped_file_by_indexes', _first_or('out_file'))
+
 assert os.path.realpath(seismic_zfp.__file__).startswith(os.path.realpath(REPO)), \
     f"seismic_zfp imported from {seismic_zfp.__file__}, expected {REPO}"
 
